@@ -219,7 +219,16 @@ func (r *Runner) exec(c model.Call) model.Obs {
 			req.Messages = append(req.Messages, &pubsubpb.PubsubMessage{Data: c.Payload[i], Attributes: c.MsgAttrs[i], OrderingKey: c.Op.Keys[i]})
 		}
 		var resp *pubsubpb.PublishResponse
-		resp, err = w.Pub.Publish(ctx, req)
+		if c.Op.Tgt == "tie" {
+			// a clock that does not move during the request: every message of the batch
+			// gets the same publish time
+			tick := w.SeqTick
+			w.SeqTick = false
+			resp, err = w.Pub.Publish(ctx, req)
+			w.SeqTick = tick
+		} else {
+			resp, err = w.Pub.Publish(ctx, req)
+		}
 		if err == nil {
 			o.IDs = resp.MessageIds
 		}
